@@ -235,6 +235,49 @@ def run(ctx, res):
             outs = list(ex.map(one, range(len(progs))))
         res.count("L2_cicada_runs", len(progs))
         nviol = 0
+
+        def observe(ix, rc, recs):
+            """(implementation's observable, reference observable) of program ix"""
+            p = progs[ix]
+            exp_ran, exp_status = ref_exec(p)
+            got = []
+            bg_exp = sorted(m for (m, prev, st_) in exp_ran if st_ == "bg")
+            bg_got = []
+            for r in recs:
+                a = r["argv"]
+                if len(a) > 2 and a[2] in bg_exp and a[1] == "@s%d" % BG_MS:
+                    bg_got.append(a[2])
+                    continue
+                got.append((a[2] if len(a) > 2 else "?", a[1] if len(a) > 1 else "?"))
+            if sorted(bg_got) != bg_exp:
+                got.append(("background helpers", repr(sorted(bg_got))))
+            exp = []
+            for (m, prev, st_) in exp_ran:
+                if st_ == "bg" or (not isinstance(st_, tuple) and st_ in SPECIAL):
+                    continue
+                ctl = "@s%d,x%d" % (SLOW_MS, st_[1]) if isinstance(st_, tuple) else "@x%d" % (prev if st_ is None else st_)
+                exp.append((m, ctl))
+            return "ran=%r status=%r" % (got, rc), "ran=%r status=%r" % (exp, exp_status)
+
+        # A disagreement seen in the parallel pass is run again, alone, before it is believed: the pass runs 16 shells at a
+        # time next to whatever else the machine is doing, and a 20 s time limit on a line of three half-second helpers was
+        # once exceeded under load (status 'TIMEOUT' on a build whose change could not cause it).  A deterministic defect
+        # reproduces; what does not reproduce is counted in the evidence, not reported.
+        unconfirmed = 0
+        for ix, (rc, recs, mode, err) in enumerate(outs):
+            a_, b_ = observe(ix, rc, recs)
+            if a_ != b_:
+                d = os.path.join(work, "again%d" % ix)
+                os.makedirs(d, exist_ok=True)
+                tr = os.path.join(d, "trace")
+                rc2, out2, err2 = run_cicada(ctx.cicada, lines[ix], tr, mode, d, timeout=60)
+                recs2 = read_trace(tr)
+                shutil.rmtree(d, ignore_errors=True)
+                a2, b2 = observe(ix, rc2, recs2)
+                if a2 == b2:
+                    unconfirmed += 1
+                    outs[ix] = (rc2, recs2, mode, err2)
+        res.extra["l2_disagreements_not_reproduced_alone"] = unconfirmed
         for ix, (rc, recs, mode, err) in enumerate(outs):
             p, line = progs[ix], lines[ix]
             exp_ran, exp_status = ref_exec(p)
